@@ -30,6 +30,9 @@ type c20Case struct {
 	Renders  []int             `json:"renders"`  // sequence of rendering modes: 0 yaml, 1 json, 2 yaml+content, 3 json+content
 	Derive   string            `json:"derive"`   // none | profiles | prune | disable | select | labels
 	Opts     loadOpts          `json:"opts"`     // loader options that do not concern secrets (the value must be available all the same)
+	// Included: the document is an included file and the variables that can be written in a dotenv file live in
+	// the included project's own .env only
+	Included bool `json:"included,omitempty"`
 }
 
 var c20Specials = []string{": ", " #", "'", `"`, "\n", "{", "}", "[", "]", "&", "*", "!", "|", ">", "%", "@", "`", "\\", "\t", "- ", "? ", ",", "$$", "=", "é"}
@@ -84,6 +87,7 @@ func genC20(t *rapid.T) c20Case {
 		cs.Renders = append(cs.Renders, rapid.IntRange(0, 3).Draw(t, "render"))
 	}
 	cs.Derive = rapid.SampledFrom([]string{"none", "none", "profiles", "prune", "disable", "select", "labels"}).Draw(t, "derive")
+	cs.Included = rapid.IntRange(0, 3).Draw(t, "included") == 0
 	switch rapid.IntRange(0, 7).Draw(t, "opts") {
 	case 0:
 		cs.Opts.SkipResolveEnvironment = true // concerns the `environment` of services, not where secrets take their value
@@ -202,7 +206,28 @@ func c20Check(c *Ctx, cs c20Case) *Failure {
 		c.Label("with-loader-options")
 	}
 	lc := loadCase{Files: []memFile{{Name: "compose.yaml", Content: doc}}, Main: []string{"compose.yaml"}, Env: env, Opts: opts}
-	r := lc.loadMem()
+	included := cs.Included
+	for _, cf := range cs.Configs {
+		if cf.Kind == "environment" {
+			included = false // an included config sourced from the environment is the known finding of C06
+		}
+	}
+	var r loadResult
+	if included {
+		c.Label("document-is-an-included-file")
+		var dot strings.Builder
+		for _, k := range sortedStrKeys(cs.Canaries) {
+			if v := cs.Canaries[k]; !strings.ContainsAny(v, "'\n\r\\") {
+				dot.WriteString(k + "='" + v + "'\n")
+				delete(env, k)
+			}
+		}
+		lc.Files = []memFile{{Name: "compose.yaml", Content: "include:\n  - inc/compose.yaml\nservices:\n  front-of-include:\n    image: busybox\n"}, {Name: "inc/compose.yaml", Content: doc}, {Name: "inc/.env", Content: dot.String()}}
+		lc.Env = env
+		r = lc.load()
+	} else {
+		r = lc.loadMem()
+	}
 	if r.Panic != nil {
 		return r.Panic
 	}
